@@ -663,6 +663,11 @@ func (g *gen) insertStmt() string {
 	r := g.r
 	s := g.s
 	listed := r.Chance(3, 4)
+	// now and then a row that is in the way twice: primary key of one row, unique values of another
+	double := len(s.Uniq) > 0 && len(g.rows) > 1 && r.Chance(1, 5)
+	if double {
+		listed = false
+	}
 	var cols []int
 	if listed {
 		for i, c := range s.Cols {
@@ -696,6 +701,9 @@ func (g *gen) insertStmt() string {
 		nrows = 2 + r.Intn(2)
 	}
 	fresh := r.Chance(3, 4)
+	if double {
+		fresh = false
+	}
 	rows := make([]string, nrows)
 	for i := range rows {
 		vs := make([]string, len(cols))
@@ -715,6 +723,12 @@ func (g *gen) insertStmt() string {
 				}
 			case c.PK:
 				vs[j] = g.keyValue(ci, fresh)
+			case double && g.inUnique(ci):
+				if a, ok := g.existing(ci); ok && a.T != "null" {
+					vs[j] = g.emitArg(a)
+				} else {
+					vs[j] = g.storeValue(ci)
+				}
 			default:
 				vs[j] = g.storeValue(ci)
 			}
@@ -723,7 +737,11 @@ func (g *gen) insertStmt() string {
 	}
 	verb := "INSERT"
 	ondup := ""
-	switch k := r.Intn(20); {
+	k := r.Intn(20)
+	if double {
+		k = []int{0, 7, 7, 8, 10}[r.Intn(5)] // upsert, REPLACE, plain
+	}
+	switch {
 	case k < 5:
 		var sets []string
 		n := 1 + r.Intn(2)
